@@ -36,30 +36,26 @@ func (tm *Timer) Now() time.Time {
 }
 
 func (tm *Timer) MoveForward(d time.Duration) {
-	events := func() []event {
-		tm.lock.Lock()
-		defer tm.lock.Unlock()
-		tm.now = tm.now.Add(d)
-		ret := make([]event, len(tm.events))
-		copy(ret, tm.events)
-		return ret
-	}()
+	tm.lock.Lock()
+	tm.now = tm.now.Add(d)
+	n := len(tm.events)
+	tm.lock.Unlock()
 
-	// Run events
-	for i, e := range events {
-		if e.f != nil {
-			if e.t.Before(tm.now) {
-				e.f()
-				events[i].f = nil
-			}
+	// Run the events that are due. A callback may schedule and cancel events,
+	// so every slot is examined - and cleared - in the list itself right
+	// before it runs, not in a copy taken beforehand
+	for i := 0; i < n; i++ {
+		tm.lock.Lock()
+		e := tm.events[i]
+		due := e.f != nil && e.t.Before(tm.now)
+		if due {
+			tm.events[i].f = nil
+		}
+		tm.lock.Unlock()
+		if due {
+			e.f()
 		}
 	}
-
-	func() {
-		tm.lock.Lock()
-		defer tm.lock.Unlock()
-		tm.events = events
-	}()
 }
 
 func (tm *Timer) Schedule(d time.Duration, f func()) func() error {
